@@ -394,6 +394,22 @@ N("C14", "start-rename", PH, "ConvexPolyhedron.Cylinder", "start", "first", coun
 N("C14", "n-lt-3", PG, "get_circle_point_list", "if n <= 2:", "if n < 3:")
 
 # =========================================================================== C20
+N("C20", "deepcopy-hook-structural", PG, None, "    def eq_with_normal(self, other):",
+  "    def __deepcopy__(self, memo):\n        new = self.__class__.__new__(self.__class__)\n        new.points = copy.deepcopy(self.points, memo)\n        new.center_point = copy.deepcopy(self.center_point, memo)\n        new.plane = copy.deepcopy(self.plane, memo)\n        return new\n\n    def eq_with_normal(self, other):",
+  note="a __deepcopy__ that deep-copies every field is the default deep copy written out")
+F("C20", "deepcopy-hook-shares-plane", PG, None, "    def eq_with_normal(self, other):",
+  "    def __deepcopy__(self, memo):\n        new = self.__class__.__new__(self.__class__)\n        new.points = copy.deepcopy(self.points, memo)\n        new.center_point = copy.deepcopy(self.center_point, memo)\n        new.plane = self.plane\n        return new\n\n    def eq_with_normal(self, other):", rule="R20.4",
+  note="the copy refers to the original's Plane, whose point p is moved in place by the original's move()")
+F("C20", "deepcopy-hook-forgets-field", PG, None, "    def eq_with_normal(self, other):",
+  "    def __deepcopy__(self, memo):\n        new = self.__class__.__new__(self.__class__)\n        new.points = copy.deepcopy(self.points, memo)\n        new.plane = copy.deepcopy(self.plane, memo)\n        return new\n\n    def eq_with_normal(self, other):", rule="R20.4")
+N("C20", "deepcopy-hook-point-dict", G + "point.py", None, "    def __repr__(self):",
+  "    def __deepcopy__(self, memo):\n        new = self.__class__.__new__(self.__class__)\n        new.__dict__.update(self.__dict__)\n        return new\n\n    def __repr__(self):",
+  note="the coordinates are numbers: sharing them is copying them")
+F("C20", "deepcopy-hook-vector-shares-list", U + "vector.py", None, "    def __repr__(self):",
+  "    def __deepcopy__(self, memo):\n        new = self.__class__.__new__(self.__class__)\n        new.__dict__.update(self.__dict__)\n        return new\n\n    def __repr__(self):", rule="R20.4",
+  note="the component list _v is shared: v[0] = 1 on the original changes the copy")
+N("C20", "deepcopy-hook-vector-fresh-list", U + "vector.py", None, "    def __repr__(self):",
+  "    def __deepcopy__(self, memo):\n        new = self.__class__.__new__(self.__class__)\n        new.__dict__.update(self.__dict__)\n        new._v = list(self._v)\n        return new\n\n    def __repr__(self):")
 F("C20", "segment-no-deepcopy", G + "segment.py", "Segment.__init__", "    a = copy.deepcopy(a)\n    b = copy.deepcopy(b)\n", "", rule="R20.3")
 F("C20", "halfline-one-deepcopy", G + "halfline.py", "HalfLine.__init__", "    a = copy.deepcopy(a)\n", "", rule="R20.3")
 F("C20", "polygon-no-deepcopy", PG, "ConvexPolygon.__init__", "points = copy.deepcopy(pts)", "points = pts", rule="R20.3")
@@ -414,7 +430,9 @@ F("C20", "move-mutates-vector", G + "point.py", "Point.move", "        self.x +=
 F("C20", "global-counter", C + "angle.py", None, "def angle(a, b):", "N_CALLS = 0\n\ndef angle(a, b):\n    global N_CALLS\n    N_CALLS += 1", rule="R20.2")
 F("C20", "class-level-list", G + "segment.py", None, "    class_level = 3\n", "    class_level = 3\n    registry = []\n", rule="R20.2")
 F("C20", "deepcopy-hook", G + "point.py", None, "    def pv(self):", "    def __deepcopy__(self, memo):\n        return self\n\n    def pv(self):", rule="R20.4")
-F("C20", "eq-by-identity", G + "point.py", "Point.__eq__", "    if isinstance(other, Point):", "    if self is other:\n        return True\n    if isinstance(other, Point):", rule="R20.4")
+F("C20", "eq-by-identity", G + "point.py", "Point.__eq__", "    if isinstance(other, Point):", "    if self is not other:\n        return False\n    if isinstance(other, Point):", rule="R20.4")
+N("C20", "eq-identity-fast-path", G + "point.py", "Point.__eq__", "    if isinstance(other, Point):", "    if self is other:\n        return True\n    if isinstance(other, Point):",
+  note="a reflexive fast path: two distinct objects are compared exactly as before")
 F("C20", "helper-mutates-through-alias", C + "aux_calc.py", "points_in_a_line", "        p0 = points[0]\n", "        p0 = points[0]\n        q = p0\n        q.x += 0\n", rule="R20.1")
 N("C20", "copy-then-alias", G + "segment.py", "Segment.__init__", "    a = copy.deepcopy(a)\n    b = copy.deepcopy(b)\n", "    a0 = copy.deepcopy(a)\n    b0 = copy.deepcopy(b)\n    a = a0\n    b = b0\n")
 N("C20", "deepcopy-of-tuple", G + "halfline.py", "HalfLine.__init__", "    a = copy.deepcopy(a)\n    b = copy.deepcopy(b)\n", "    a, b = copy.deepcopy((a, b))\n")
@@ -769,6 +787,22 @@ FB("C11", "normalised-pair-wrong-predicate", "neutral-M6", C + "angle.py", "para
    "return a.dv.orthogonal(b.n)", "return a.dv.parallel(b.n)", rule="R11.3")
 
 
+N('C07', "lazy-area-cache", PG, "ConvexPolygon.area",
+  '    area = 0\n    for i in range(len(self.points)):\n        index_0 = i\n        if i == len(self.points) - 1:\n            index_1 = 0\n        else:\n            index_1 = i + 1\n        area += get_triangle_area(self.center_point, self.points[index_0], self.points[index_1])\n    return area',
+  '    try:\n        return self._area\n    except AttributeError:\n        pass\n    area = 0\n    for i in range(len(self.points)):\n        index_0 = i\n        if i == len(self.points) - 1:\n            index_1 = 0\n        else:\n            index_1 = i + 1\n        area += get_triangle_area(self.center_point, self.points[index_0], self.points[index_1])\n    self._area = area\n    return self._area',
+  note="a memoised area: translation invariant, tolerance free, read only by its accessor -- needs no refresh and is not an observable write")
+F('C07', "lazy-position-dependent-cache", PG, "ConvexPolygon.area",
+  '    area = 0\n    for i in range(len(self.points)):\n        index_0 = i\n        if i == len(self.points) - 1:\n            index_1 = 0\n        else:\n            index_1 = i + 1\n        area += get_triangle_area(self.center_point, self.points[index_0], self.points[index_1])\n    return area',
+  '    try:\n        return self._area\n    except AttributeError:\n        pass\n    area = 0\n    for i in range(len(self.points)):\n        index_0 = i\n        if i == len(self.points) - 1:\n            index_1 = 0\n        else:\n            index_1 = i + 1\n        area += get_triangle_area(self.center_point, self.points[index_0], self.points[index_1])\n    self._area = area + 0 * self.center_point.pv().length()\n    return self._area', rule='R7.1',
+  note="the cached value depends on the position (centre distance from the origin) and move() does not drop it")
+N('C20', "lazy-area-cache", PG, "ConvexPolygon.area",
+  '    area = 0\n    for i in range(len(self.points)):\n        index_0 = i\n        if i == len(self.points) - 1:\n            index_1 = 0\n        else:\n            index_1 = i + 1\n        area += get_triangle_area(self.center_point, self.points[index_0], self.points[index_1])\n    return area',
+  '    try:\n        return self._area\n    except AttributeError:\n        pass\n    area = 0\n    for i in range(len(self.points)):\n        index_0 = i\n        if i == len(self.points) - 1:\n            index_1 = 0\n        else:\n            index_1 = i + 1\n        area += get_triangle_area(self.center_point, self.points[index_0], self.points[index_1])\n    self._area = area\n    return self._area',
+  note="a memoised area: translation invariant, tolerance free, read only by its accessor -- needs no refresh and is not an observable write")
+F('C20', "lazy-position-dependent-cache", PG, "ConvexPolygon.area",
+  '    area = 0\n    for i in range(len(self.points)):\n        index_0 = i\n        if i == len(self.points) - 1:\n            index_1 = 0\n        else:\n            index_1 = i + 1\n        area += get_triangle_area(self.center_point, self.points[index_0], self.points[index_1])\n    return area',
+  '    try:\n        return self._area\n    except AttributeError:\n        pass\n    area = 0\n    for i in range(len(self.points)):\n        index_0 = i\n        if i == len(self.points) - 1:\n            index_1 = 0\n        else:\n            index_1 = i + 1\n        area += get_triangle_area(self.center_point, self.points[index_0], self.points[index_1])\n    self._area = area + 0 * self.center_point.pv().length()\n    return self._area', rule='R20.1',
+  note="the cached value depends on the position (centre distance from the origin) and move() does not drop it")
 # =========================================================================== positive controls for rules with no instance today
 # (the handlers contain no numeric pre-filter on the pinned tree; these variants must be reported -- the quick tier runs them
 # too, so that the rule cannot pass vacuously, cf. CONTROLS below)
